@@ -21,8 +21,13 @@ struct TreeGen<'a> {
 
 impl<'a> TreeGen<'a> {
     fn content(&mut self) -> Vec<u8> {
-        match self.r.below(5) {
+        match self.r.below(6) {
             0 => vec![],
+            5 => {
+                // sizes around and beyond other plausible read-block and reader-buffer sizes
+                let n = *self.r.pick(&[4095usize, 4096, 4097, 6143, 6144, 6145, 8191, 8192, 8193, 9000, 12288, 16384, 16385, 20000, 33000]);
+                self.r.bytes(n)
+            }
             1 => b"hello\n".to_vec(),
             2 => {
                 let n = 1 + self.r.below(40);
